@@ -13,7 +13,8 @@ CLAIMS = {
         category="proof",
         text="Deductive proof of the sequential, per-call content clauses of the property for the code that re-frames payloads: p2p.VecSize/VecBytes (concatenation, fresh result), "
              "fragswarm newMessage/parseMessage/aggregator/handleTell/Tell (every part carries id, index, count and a contiguous slice; a delivered message is the in-order concatenation of exactly the parts of one (source,id) group), "
-             "mbapp Header accessors, collector.addPart, fragLayer and handleMessage/Tell/send (offsets are partIndex*partSize, total size respected, callers' buffers not written: frame obligations). "
+             "mbapp Header accessors, collector.addPart, fragLayer and handleMessage/Tell/send (offsets are partIndex*partSize, total size respected, callers' buffers not written: frame obligations), "
+             "the swarmutil bounded queue (a queued message is a copy of the sender's payload in a recycled buffer; a dequeued message reaches a callback before its buffer is recycled). "
              "Schedules, the transports below (UDP/QUIC/SSH) and the purely forwarding wrappers are outside what a function contract decides and are not claimed.",
         design_ref="DESIGN.md section 5, C01",
         note=TRUST + "Not covered: interleavings of concurrent senders, memswarm/udpswarm/quicswarm/sshswarm I/O, multiswarm/wlswarm/vswarm forwarding.",
@@ -62,7 +63,8 @@ CLAIMS = {
         category="proof",
         text="Deductive proof of the safety skeleton of channel establishment: a session that becomes ready in the next slot is promoted in the same Deliver call (also when application data is what made it ready), "
              "the simultaneous-initiator tie-break keeps exactly one prospective session, lastReceived is refreshed by every delivered application message and by promotion, "
-             "and expireSessions tears the current session down only when it is expired or idle beyond KeepAliveTimeout.",
+             "expireSessions tears the current session down only when it is expired or idle beyond KeepAliveTimeout, "
+             "and an InitHello is offered only to the responder session created from it while handshake messages go to the newest session first (a restarted peer is not answered by the old session).",
         design_ref="DESIGN.md section 5, C07 and section 10",
         note=TRUST + "The latency / liveness part of the property (Send completes within a bounded number of retransmission intervals) is not decided by contracts.",
     ),
@@ -99,7 +101,7 @@ CLAIMS = {
     "C12": dict(
         category="proof",
         text="Deductive proof of: closed => stored error non-nil (both hubs, also for Close() without a reason); every blocking select in TellHub.Receive/Deliver and AskHub.ServeAsk/Deliver has a receive case on the hub's closed channel (wake-on-close obligation per select); "
-             "Receive/ServeAsk called on a closed hub return a non-nil error.",
+             "Receive/ServeAsk called on a closed hub return a non-nil error; the bounded queue's Receive has the same wake obligations.",
         design_ref="DESIGN.md section 5, C12 and section 10",
         note=TRUST + "'No callback after Close returned', goroutine release and the Close methods of the composite swarms are not decided.",
     ),
